@@ -176,6 +176,14 @@ class Flow:
         # a definition made by a itself (e.g. `date += ...` being node a) is before the read at b: fine
         return True
 
+    def no_def_between(self, var: str, a: Node, b: Node, avoid=None) -> bool:
+        """no definition of var (or of a prefix) on any path from a to b that avoids re-passing a and the nodes in `avoid`"""
+        mid = self.cfg.between(a, b, avoid)
+        for d in self.defs:
+            if d.node is not None and d.node.id in mid and self._kills(d, var):
+                return False
+        return True
+
     def node_of_expr(self, e: ast.AST) -> Optional[Node]:
         return self.cfg.node_containing(e)
 
